@@ -646,14 +646,16 @@ def build(defined, tag):
 
 
 # ---------------------------------------------------------------------------------------------------------------------
-# Dispatch conditions of the serial run-time wrappers, as TEXT.  Which class a wrapper builds is decided by a handful of
+# Dispatch conditions of the serial and distributed run-time wrappers, as TEXT.  Which class a wrapper builds is decided by a handful of
 # expressions (the `as_scalar` test of the coarsening wrapper, the enable_if conditions in front of the call_* helpers,
 # the bodies of the switch-local case macros, the Precond typedef of every case of runtime::preconditioner, the
 # forwarding overload of the solver wrapper, the specialisations of backend::*_is_supported).  They are emitted into the
 # generated table; `Amgcl/Model/RuntimeDispatch.lean` holds the expressions they are expected to be, and the generated
 # obligation `dispatch_conditions_expected` is their equality (kernel `decide`).
 DISPATCH_FILES = ["amgcl/coarsening/runtime.hpp", "amgcl/relaxation/runtime.hpp", "amgcl/solver/runtime.hpp",
-                  "amgcl/preconditioner/runtime.hpp"]
+                  "amgcl/preconditioner/runtime.hpp",
+                  "amgcl/mpi/coarsening/runtime.hpp", "amgcl/mpi/relaxation/runtime.hpp", "amgcl/mpi/solver/runtime.hpp",
+                  "amgcl/mpi/direct_solver/runtime.hpp", "amgcl/mpi/partition/runtime.hpp", "amgcl/mpi/preconditioner.hpp"]
 
 
 def norm_ws(t):
@@ -717,9 +719,23 @@ def extract_dispatch():
         # switch-local case macros
         for dm in re.finditer(r"^[ \t]*#[ \t]*define[ \t]+(\w+)\(\s*(\w+)\s*\)((?:.*\\\n)*.*)$", src, re.M):
             add("%s macro %s" % (short, enclosing_function(src, dm.start())), dm.group(3).replace("\\\n", "\n"))
-        # explicit cases (preconditioner): the type every case works on
-        for m in re.finditer(r"\bcase\s+([\w:]+)\s*:\s*\{\s*typedef\s+([^;]*?)\s+(\w+)\s*;", src):
-            add("%s case %s %s" % (short, enclosing_function(src, m.start()), m.group(1).split("::")[-1]), m.group(2))
+        # explicit (hand-written, not macro-generated) cases and default labels of every wrapper switch: the whole statement list
+        for m in re.finditer(r"\bswitch\s*\(", src):
+            pc = match_brace(src, m.end() - 1, "(", ")")
+            bm = re.match(r"\s*\{", src[pc + 1:])
+            if not bm: continue
+            o = pc + 1 + bm.end() - 1; c = match_brace(src, o); body = src[o + 1:c]
+            if re.search(r"return\s+\w+\s*<<\s*\"", body): continue       # operator<< of the enumeration: in the enum tables
+            fn = enclosing_function(src, m.start())
+            plain = re.sub(r"^[ \t]*#[ \t]*define[ \t]+\w+\([^)]*\)(?:.*\\\n)*.*$", "", body, flags=re.M)
+            plain = re.sub(r"^[ \t]*#[ \t]*undef[ \t]+\w+[ \t]*$", "", plain, flags=re.M)
+            labels = list(re.finditer(r"\b(?:case\s+([\w:]+)|(default))\s*:(?!:)", plain))
+            for k, lm in enumerate(labels):
+                end = labels[k + 1].start() if k + 1 < len(labels) else len(plain)
+                text = plain[lm.end():end]
+                # macro invocations that follow the last explicit statement belong to the next (generated) cases
+                text = re.split(r"\b[A-Z][A-Z0-9_]+\s*\(\s*\w+\s*\)\s*;", text)[0]
+                add("%s case %s %s" % (short, fn, (lm.group(1) or "default").split("::")[-1]), text)
         # plain statements that decide the class
         for m in re.finditer(r"\b(?:const\s+bool\s+)?(as_scalar|block_value_type)\s*=\s*([^;]*);", src):
             add("%s assign %s" % (short, m.group(1)), m.group(2))
@@ -891,7 +907,7 @@ def emit(tables, enums, dispatch=()):
          "set_option maxRecDepth 65536 in",
          "/-- the expressions that decide which class a serial run-time wrapper builds are, as text, the expressions recorded",
          "in `Amgcl/Model/RuntimeDispatch.lean` (same keys, same order, same text) -/",
-         "theorem dispatch_conditions_expected : Amgcl.Params.dispatchAgrees dispatchConditions Amgcl.Params.expectedDispatch = true := by decide",
+         "theorem dispatch_conditions_expected : Amgcl.Params.dispatchAgrees dispatchConditions Amgcl.Params.expectedDispatch = true := by decide +kernel",
          "",
          "end Amgcl.Generated", ""]
     return data, "\n".join(O)
